@@ -405,7 +405,15 @@ def _run_symbolic(fstr, f, vars_):
 
     parsing.float, parsing.int = s_float, s_int
     try:
+        first = parsing.formula_to_composition(fstr)
+        # history: the caller owns the returned mapping; mutating it must not influence a later parse of the same text
+        snapshot = dict(first)
+        first[0] = 99
+        first[999] = 1
         got = parsing.formula_to_composition(fstr)
+        if set(snapshot) != set(got) or got is first:
+            got = dict(got)
+            got["__not_fresh__"] = 1
     finally:
         del parsing.float, parsing.int
     exp = oracle(f, lambda p: vars_[ph_str(p)])
@@ -422,6 +430,8 @@ try:
 except Exception as e:
     print("raised %%r" %% (e,)); sys.exit(1)
 got2 = Substance.from_formula(f).composition
+got[0] = 99; got[999] = 1          # the caller owns the returned mapping
+got = formula_to_composition(f)    # a later parse of the same text must not see that
 print(f, got, exp)
 ok = set(got) == set(exp) and all(abs(got[k] - exp[k]) < 1e-9 * max(1, abs(exp[k])) for k in exp) and got2 == got
 sys.exit(0 if ok else 1)
